@@ -272,6 +272,11 @@ func (d *Diamond) mergeSplits(filePackedC chan<- filePacked, errorC chan<- error
 
 				existing := obj.(mergeEntry)
 				if file.Hash == existing.Hash {
+					if file.Timestamp.After(existing.Timestamp) {
+						// same content uploaded again later: this is no conflict, but arbitration against
+						// other versions must see the latest upload time of this content
+						mergeIndex, _, _ = mergeIndex.Insert(key, mergeEntry{BundleEntry: file, ID: splitID})
+					}
 					continue
 				}
 
